@@ -805,6 +805,23 @@ class Model:
             self.classes.add('catalog-hard-link')
         return Call('add_hard_link', kw, effect)
 
+    def op_rm_catlink(self, op):
+        """rm_hard_link on one of the boot catalog's names (the catalog itself stays as long as El Torito does)."""
+        if self.boot is None or -1 not in self.blobs or not self.blobs[-1].names:
+            raise Skip('no catalog name')
+        cat = self.blobs[-1]
+        nl = sorted(cat.names)
+        ns, path = nl[op.get('j', 0) % len(nl)]
+        kw = {{'iso': 'iso_path', 'jol': 'joliet_path', 'udf': 'udf_path'}[ns]: path}
+
+        def effect():
+            self.t[ns].pop(path, None)
+            cat.names.discard((ns, path))
+            self.classes.add('catalog-name-unlinked')
+            if not cat.names:
+                self.classes.add('catalog-without-name')
+        return Call('rm_hard_link', kw, effect)
+
     def op_add_hybrid(self, op):
         if self.boot is None:
             raise Skip('no boot')
